@@ -61,7 +61,14 @@ POSITIONS = [
     ("pragma", "#pragma omp {E}\nint after;", lambda d: vals(d.pragmas[0].content)[1:], ([], [])),
     ("requires-paren", "template <typename X> requires ({E}) void rf(); int after;", lambda d: vals(d.namespace.functions[0].template.raw_requires_pre), (["("], [")"])),
     ("fnptr-param-default", "void f(void (*cb)(int) = {E}, int z = 0); int after;", lambda d: vals(d.namespace.functions[0].parameters[0].default), ([], [])),
+    ("requires-leading", "template <typename X> requires {E} void rf(); int after;", lambda d: vals(d.namespace.functions[0].template.raw_requires_pre), ([], [])),
+    ("requires-trailing", "template <typename X> void rf(X) requires {E}; int after;", lambda d: vals(d.namespace.functions[0].raw_requires), ([], [])),
+    ("requires-method", "struct S {{ template <typename X> void rf(X) const requires {E} {{ }} int aft; }}; int after;", lambda d: vals(d.namespace.classes[0].methods[0].raw_requires), ([], [])),
 ]
+REQ_POSITIONS = ("requires-leading", "requires-trailing", "requires-method")
+# un-parenthesised requires-clauses: constraint-logical-or-expressions over primary expressions
+REQ_EXPRS = ["Cq<X>", "decltype(p<X>(0))", "Cq<X> && Dq<X>", "(a < b) || Cq<X>", "decltype(f(1))::value", "requires (X t) { t; }", "true", "ns::Cq<X, int>",
+             "Cq<X> || (sizeof(X) > 4)", "(Cq<X>)", "(a) && (b)", "Cq<X> && (a || b) && Dq<X>", "::ns::inner::Cq<X>", "Cq<decltype(a)>"]
 
 EXPRS = [
     "1", "a", "a + b", "a * b - 3", "a == b", "a && b || c", "a << 2", "-a", "!a", "a ? b : c", "x::y", "::x::y<int>::z",
@@ -71,11 +78,14 @@ EXPRS = [
     "[](int q) { return q; }", "[&](auto... xs) { return f(xs...); }(1, 2)", "f(\");\")", "f(')')", "f(\"}\", '{')", "(x;)", "f({1, 2}, [3])",
     "a[b[0]]", "a < b", "a > b", "a < b && c > d", "a <= b", "a >= b", "a >> 2", "a <=> b", "a < (b > c)", "f(a < b, c)", "f(a > b)", "v[a < b]",
     "T<1> {}", "T<(1 > 2)>::q", "operator+", "this->x", "typename X::template Y<Z>::type(1)", "a = b", "a += 1", "1 + (2 * (3 - (4 / 5)))",
-]
+    "0xDE'AD'BEEF", "0x1'0000'0000ull + 0b1'01 + 0'17",
+] + REQ_EXPRS
 # expressions that are out of the property's scope in some positions (C++ itself makes them something else there)
 def applicable(pos, expr, toks):
     name = pos[0]
     depth0 = depth0_tokens(toks)
+    if name in REQ_POSITIONS:
+        return expr in REQ_EXPRS
     if name in ("initializer", "second-declarator-init", "default-arg", "last-default-arg", "enumerator", "last-enumerator", "template-param-default",
                 "field-default", "fnptr-param-default") and "," in depth0:
         return False  # a top-level comma ends the declarator / parameter / enumerator in C++ too
@@ -120,7 +130,7 @@ def judge(pos, expr):
     names = [v.name.segments[-1].name for v in d.namespace.variables]
     if names.count("after") != 1 or names[-1] != "after":
         return f"following declaration disturbed: variables {names}"
-    base_n = len(parse_string(tmpl.format(E="1")).namespace.variables)
+    base_n = len(parse_string(tmpl.format(E=("Cq<X>" if name in REQ_POSITIONS else "1"))).namespace.variables)
     if len(names) != base_n:
         return f"{len(names)} variables reported, {base_n} written"
     return None
@@ -166,7 +176,7 @@ def h_value(c0: int, c1: int) -> bool:
         bad = judge(pos, expr)
         if bad is None:
             return True
-        return (pos[0], expr) in EXCUSE
+        return (pos[0], expr, None) in EXCUSE or (pos[0], expr, bad) in EXCUSE
 
 
 # ---------------------------------------------------------------------------------------------
@@ -262,7 +272,7 @@ def run(tier):
               "an expression with a top-level comma is not generated in positions where C++ itself ends the declarator / parameter / enumerator there",
               "documented omissions: outer parentheses of throw / noexcept / decltype, array brackets; braces of a brace initializer are part of the value")
     ck.out_of_scope("expressions outside the listed grammar", "'<' '>' at the top level of a template argument list (ambiguous in C++ itself)")
-    excuse = tuple((e["match"]["position"], e["match"]["expr"]) for e in ck.known if e.get("match", {}).get("kind") == "value")
+    excuse = tuple((e["match"]["position"], e["match"]["expr"], e["match"].get("bad")) for e in ck.known if e.get("match", {}).get("kind") == "value")
     pool = chrun.make_pool()
     try:
         tw = chrun.run(__name__, "h_value", [(0, 0)], timeout=60, globs=dict(TWIN=True), pool=pool)
@@ -293,7 +303,7 @@ def run(tier):
         seen.add(sig)
         body = ("from vf.props import c14\n" f"pos = [p for p in c14.POSITIONS if p[0] == {pos[0]!r}][0]\nbad = c14.judge(pos, {expr!r})\n"
                 f"print(pos[1].format(E={expr!r})); print(bad)\nsys.exit(1 if bad else 0)\n")
-        ck.violation(f"position {pos[0]}, expression {expr!r}: {bad}", ck.write_replay(body), key=dict(kind="value", cls=cls, position=pos[0], expr=expr))
+        ck.violation(f"position {pos[0]}, expression {expr!r}: {bad}", ck.write_replay(body), key=dict(kind="value", cls=cls, position=pos[0], expr=expr, bad=bad))
     # listed known findings are re-demonstrated from their stored (position, expression)
     for e in ck.known:
         m = e.get("match", {})
@@ -304,6 +314,8 @@ def run(tier):
             continue
         bad = judge(pos, m["expr"])
         ck.traces += 1
+        if bad is not None and m.get("bad") not in (None, bad):
+            continue  # a different failure of the same input: reported by the exploration above, not this listed finding
         if bad is not None:
             ck.known_hit(e, f"{pos[1].format(E=m['expr'])!r}: {bad[:100]}")
     globals()["K_MAX"] = kmax
